@@ -824,9 +824,10 @@ def gen_tracker_cases(ctx, rng):
             opt["modes"] = 2
         cases.append({"entry": "DropletTracker.handle", "grid": gs, "field": gen_field(rng, gs), "options": opt})
     for _ in range(ctx.scale(100, 800)):
-        gs = gen_grid(rng, rng.choice(FAMILIES), max3=5)
-        cases.append({"entry": "LengthScaleTracker.handle", "grid": gs, "field": gen_field(rng, gs),
-                      "method": rng.choice(["structure_factor_mean", "structure_factor_maximum", "droplet_detection"])})
+        method = rng.choice(["structure_factor_mean", "structure_factor_maximum", "droplet_detection"])
+        # droplet_detection on symmetric grids is known finding F16 (property C17) and is not probed here
+        gs = gen_grid(rng, rng.choice(["cart1", "cart2", "cart3"] if method == "droplet_detection" else FAMILIES), max3=5)
+        cases.append({"entry": "LengthScaleTracker.handle", "grid": gs, "field": gen_field(rng, gs), "method": method})
     return cases
 
 
